@@ -472,6 +472,8 @@ def periodConsistent (decl : VarDecl) (p : Period) : Bool :=
   else if decl.defPeriod = .year ∧ p.unit ≠ .year then false
   else if decl.defPeriod = .month ∧ p.unit ≠ .month then false
   else if decl.defPeriod = .week ∧ p.unit ≠ .week then false
+  else if decl.defPeriod = .day ∧ p.unit ≠ .day then false
+  else if decl.defPeriod = .weekday ∧ p.unit ≠ .weekday then false
   else decide (p.size = 1)
 
 /-- frames marked by `invalidate_spiral_variables`, walking the stack from the most recent -/
@@ -640,7 +642,9 @@ def sumCalc (sys : Sys) (fuel : Nat) (x : Id) (v : Var) : List Period → Option
 def calcAdd (sys : Sys) (fuel : Nat) (x : Id) (v : Var) (p : Period) : HM (Option Vec) := do
   let decl ← varDecl sys v
   if unitWeight decl.defPeriod > unitWeight p.unit then fail .value else
-  if decl.defPeriod = .eternity then fail .value else do
+  if decl.defPeriod = .eternity then fail .value else
+  -- repair C03: an eternal period cannot be summed over
+  if p.unit = .eternity then fail .value else do
   let subs ← ofPeriod (p.subperiods decl.defPeriod)
   sumCalc sys fuel x v subs none
 
